@@ -14,7 +14,7 @@ CSS_ALPHA = {"{", "}", ":", ";", "(", ")", "DQ", "'", "BS", "/", "*", "a", " ", 
 # document fragments for Fragments.tla: tags of ordinary, void and special elements (also stray closing tags), comment / CDATA
 # delimiters, attribute shapes; rule / declaration / comment / string pieces
 FRAG_H = {"<a>", "</a>", "<br>", "</br>", "<p k=l m>", "<img a=b/>", "<!-- ", "-->", "<script>", "</script>", "t ", "<", ">", "<b c=DQd>eDQ>", "</b>",
-          "<![CDATA[", "]]>", "NL", "<script type>", "<style media=", "/>"}
+          "<![CDATA[", "]]>", "NL", "<script type>", "<style media=", "/>", "<script type=DQ>", "<style title=DQa</style>DQ>"}
 FRAG_S = {"a{", "}", "b:c;", "d:e", "/*", "*/", "DQ", "'", "BS", "CR", "(", ")", ";", "@m (x:y){", " ", "NL"}
 HTML_DOCS = ['<a><b c="d>e"></b></a>', '<p k=l m><br><img a=b></p>', '<a x=\'>\' {y}><!-- <a> --></a>', '<style>a>b{}</style><p t={a>b}/>',
              '<b *ng="v" #ref><![CDATA[<b>]]></b>', '<script>if(a<b)"</p>"</script><?pi <p> ?>',
